@@ -186,3 +186,10 @@ From XV Require Gen.T9text Proofs.Text_C19.
 Theorem C19_hand_modelled_functions_read_as_validated : Text_C19.all_frozen.
 Proof. exact Text_C19.all_frozen_holds. Qed.
 Print Assumptions C19_hand_modelled_functions_read_as_validated.
+
+(* clipping the reported decorrelation times at zero is refuted by the same series: its own trapezoidal sum is negative *)
+Theorem C19_clipped_times_refuted :
+  let o' := opa_fit OR false 5 1 1 1 C19_refute.ex_S C19_refute.ex_E C19_refute.ex_Ci C19_refute.ex_U C19_refute.ex_lam in
+  Rmax 0 (vget OR (o_tau o') 0) <> own_time OR 5 1 (o_P o') 0.
+Proof. exact C19_refute.ex_clip_refuted. Qed.
+Print Assumptions C19_clipped_times_refuted.
